@@ -1077,6 +1077,12 @@ ALL = {
     "C12_nchw_symbolic_dims": C12_nchw_symbolic_dims,
 }
 
+try:
+    from witnesses import graphs as _graphs
+except ImportError:  # run as a script from the witnesses directory
+    import graphs as _graphs
+ALL.update(_graphs.ALL)
+
 if __name__ == "__main__":
     import sys
     import traceback
